@@ -586,6 +586,10 @@ class UserTrackingManager:
                 # to start tracking again, the user cannot be removed otherwise
                 # there is a "ghost" user being tracked
                 if tracked_user.queue.empty():
+                    # Remove the user right away: between the return of this
+                    # task and its done callback new requests would otherwise
+                    # still be put on the queue of this finished task
+                    self._remove_tracked_user(tracked_user)
                     request.handled.set()
                     return
 
@@ -714,7 +718,13 @@ class UserTrackingManager:
             )
 
         finally:
-            self._tracked_users.pop(tracked_user.user.name, None)
+            self._remove_tracked_user(tracked_user)
+
+    def _remove_tracked_user(self, tracked_user: TrackedUser):
+        # Only remove the object itself, a new object could already have been
+        # created for the same user
+        if self._tracked_users.get(tracked_user.user.name) is tracked_user:
+            del self._tracked_users[tracked_user.user.name]
 
     async def _on_state_changed(self, event: ConnectionStateChangedEvent):
         if not isinstance(event.connection, ServerConnection):
